@@ -236,6 +236,47 @@ theorem stable_path_no_probe_beyond {c : Cfg} (hc : CfgOk c) {d : Nat} {s s' : T
   rw [(hall x hx).1]
   exact htt d hest
 
+/-! ## a path that changes
+
+The remembered distance must not survive a route change that moves the target further away: an answer that is *not* from
+the target, from a hop at or beyond the remembered distance, forgets it (so the next probes go further again); an answer
+from below the remembered distance keeps it; the target answering nearer than remembered lowers it. -/
+
+/-- a router answering at or beyond the remembered distance: the distance is forgotten — exactly then -/
+theorem router_at_or_beyond_forgets (s : TS) (t ttl : Nat) (ht : s.targetTtl = some t) :
+    newTargetTtl s false ttl = none ↔ t ≤ ttl := by
+  unfold newTargetTtl
+  simp only [Bool.false_eq_true, if_false, ht, ge_iff_le]
+  by_cases h : t ≤ ttl <;> simp [h]
+
+/-- a router answering below the remembered distance keeps it -/
+theorem router_below_keeps (s : TS) (t ttl : Nat) (ht : s.targetTtl = some t) (h : ttl < t) :
+    newTargetTtl s false ttl = some t := by
+  unfold newTargetTtl
+  simp only [Bool.false_eq_true, if_false, ht, ge_iff_le]
+  have : ¬ t ≤ ttl := by omega
+  simp [this]
+
+/-- the target answering: the remembered distance becomes the smaller of the two (a nearer target is followed at once) -/
+theorem target_answer_takes_min (s : TS) (ttl : Nat) :
+    newTargetTtl s true ttl = some (match s.targetTtl with | none => ttl | some t => min ttl t) := by
+  unfold newTargetTtl
+  cases h : s.targetTtl with
+  | none => simp
+  | some t =>
+    simp only [if_true]
+    by_cases hlt : ttl < t
+    · simp [hlt, Nat.min_eq_left (Nat.le_of_lt hlt)]
+    · simp [hlt, Nat.min_eq_right (Nat.le_of_not_lt hlt)]
+
+/-- nothing is remembered ⇒ a router's answer leaves it so -/
+theorem router_without_memory (s : TS) (ttl : Nat) (hn : s.targetTtl = none) : newTargetTtl s false ttl = none := by
+  unfold newTargetTtl; simp [hn]
+
+#print axioms router_at_or_beyond_forgets
+#print axioms router_below_keeps
+#print axioms target_answer_takes_min
+#print axioms router_without_memory
 #print axioms iter_targetTtl
 #print axioms stable_path_no_probe_beyond
 #print axioms target_ttl_ge
